@@ -248,7 +248,7 @@ inline std::string read_file(const std::string &p) {
   FILE *f = fopen(p.c_str(), "rb"); if (!f) return ""; std::string r; char buf[65536]; size_t n;
   while ((n = fread(buf, 1, sizeof buf, f)) > 0) r.append(buf, n); fclose(f); return r;
 }
-inline int finish() { stats().dump(); return stats().violations.empty() ? 0 : 3; }
+inline int finish() { cur_case() = nullptr; stats().dump(); return stats().violations.empty() ? 0 : 3; }
 
 // provider switch (C12 anchors): 0=openssl 1=gnutls
 inline const char *prov_name(int p) { return p ? "gnutls" : "openssl"; }
